@@ -713,6 +713,30 @@ def recursive_atoms(facts, ex, fn_filter):
     return rec
 
 
+def arm_label(facts, term):
+    """A short name for one alternative that does not depend on its position: the parsers it refers to, else its literals."""
+    r = set()
+    _refs(term, r)
+    names = sorted(facts.fns[x]["path"].split("::")[-1] for x in r if x in facts.fns)
+    if names:
+        return "+".join(names)[:40]
+    lits = []
+
+    def go(t):
+        if not isinstance(t, tuple) or not t:
+            return
+        if t[0] == "lit":
+            lits.append(str(t[1]))
+        for x in t[1:]:
+            if isinstance(x, tuple):
+                go(x)
+            elif isinstance(x, list):
+                for y in x:
+                    go(y)
+    go(term)
+    return ("'" + "".join(lits)[:24] + "'") if lits else "?"
+
+
 def ordered_choice(facts, ex, res, rule, fn_filter, reasons=None):
     """For every alt(e1..en): no string of an earlier alternative may be a proper prefix of a string of a later
     one (nom commits to the first alternative that matches a prefix and never comes back)."""
@@ -743,9 +767,12 @@ def ordered_choice(facts, ex, res, rule, fn_filter, reasons=None):
                 w = ext.intersect(dfas[j]).shortest()
                 if w is not None:
                     hits.append((i + 1, j + 1, al.render(w)))
-        res.oblige(1, not [h for h in hits if ("%s|alt#%d|%d<%d" % (a["fn"], a["ord"], h[0], h[1])) not in reasons])
+        # the key names the two alternatives by what they parse, not by ordinals (those move when a sibling `alt` or an
+        # alternative is factored out)
+        keyof = lambda i, j: "%s|alt|%s<%s" % (a["fn"], arm_label(facts, a["arms"][i - 1]), arm_label(facts, a["arms"][j - 1]))
+        res.oblige(1, not [h for h in hits if keyof(h[0], h[1]) not in reasons])
         for i, j, w in hits:
-            key = "%s|alt#%d|%d<%d" % (a["fn"], a["ord"], i, j)
+            key = keyof(i, j)
             if key in reasons:
                 st["reasoned"] += 1
                 continue
